@@ -3,8 +3,9 @@
    Model: Model/Basis.v (LagrangeBasis / Restricted / RestrictedModified, BSpline recursion with derivatives,
    not-a-knot hierarchy, knot selection of the Lagrange and B-spline grids, pole-wise hierarchisation, interpolation). *)
 From Coq Require Import ZArith List QArith Qcanon Bool Arith Lia Permutation.
-From SG Require Import Base.QcUtil Base.PolyInt Base.PolyQ Model.Basis
-  Proofs.BasisLagrange Proofs.BasisHier Proofs.BasisInterp Proofs.BasisCheck Proofs.BasisTrees.
+From SG Require Import Base.QcUtil Base.PolyInt Base.PolyQ Model.Basis Model.BasisPieces
+  Proofs.BasisLagrange Proofs.BasisHier Proofs.BasisInterp Proofs.BasisCheck Proofs.BasisTrees
+  Proofs.BasisPieces Proofs.BasisRepro Proofs.BasisFlat.
 Import ListNotations.
 Open Scope Qc_scope.
 
@@ -31,9 +32,10 @@ Theorem C10_lagrange_second_derivative_is_formal_second_derivative : forall knot
 Proof. exact lagrange_second_derivative_is_formal_second_derivative. Qed.
 Print Assumptions C10_lagrange_derivative_is_formal_derivative.
 Print Assumptions C10_lagrange_second_derivative_is_formal_second_derivative.
-(* NOT proved: the corresponding statements for the B-spline derivative recursions (bs_d1, bs_d2) and for the basis
-   integrals (Gauss-Legendre); those are compared with the implementation, with finite differences and with numerical
-   quadrature only.  The model's Lagrange integral IS the formal integral (Base/PolyInt.pintegral) of lag_poly. *)
+(* (round 2) the corresponding statements for the B-spline recursions and all other basis classes are proved below
+   (C10_bspline_*, C10_basis_is_piecewise_polynomial).  Basis integrals: the model's integral IS the formal integral
+   (Base/PolyInt.pintegral) of these polynomial pieces, summed over the knot intervals as get_integral does; the
+   exactness of the Gauss-Legendre rule itself (irrational nodes) is not stated. *)
 
 (* ---- restricted bases: 1 at the own knot, 0 at every other knot and outside [left neighbour, right neighbour] *)
 Theorem C10_restricted_one_at_own_knot : forall knots idx,
@@ -188,3 +190,181 @@ Proof.
   eexists. eexists. eexists. split; [vm_compute; reflexivity|]. split; [vm_compute; reflexivity|].
   split; [vm_compute; reflexivity | vm_compute; reflexivity].
 Qed.
+
+
+(* ================================================================== round 2 *)
+(* ---- B-splines: for EVERY strictly increasing knot vector t, degree p, index k and knot interval j
+        (in_piece t j x: t strictly increasing, t_j <= x < t_(j+1)), the Cox-de Boor recursion recursive_eval evaluates the
+        polynomial bs_piece t p k j, and the coded derivative recursions evaluate its formal first / second derivative *)
+Theorem C10_bspline_recursion_is_piecewise_polynomial : forall t p k j x,
+  in_piece t j x -> (k + p + 1 < length t)%nat -> bs_eval t p k x = peval (bs_piece t p k j) x.
+Proof. intros t p. exact (bs_eval_is_piece t p). Qed.
+Theorem C10_bspline_derivative_is_formal_derivative : forall t p k j x,
+  in_piece t j x -> (k + p + 1 < length t)%nat -> bs_d1 t p k x = peval (pderiv (bs_piece t p k j)) x.
+Proof. intros t p. exact (bs_d1_is_piece_derivative t p). Qed.
+Theorem C10_bspline_second_derivative_is_formal_second_derivative : forall t p k j x,
+  in_piece t j x -> (k + p + 1 < length t)%nat -> bs_d2 t p k x = peval (pderiv (pderiv (bs_piece t p k j))) x.
+Proof. intros t p. exact (bs_d2_is_piece_second_derivative t p). Qed.
+Theorem C10_bspline_piece_vanishes_outside_support : forall t p k j x,
+  (j < k \/ k + p < j)%nat -> peval (bs_piece t p k j) x = 0.
+Proof. intros t p. exact (bs_piece_zero t p). Qed.
+Theorem C10_bspline_vanishes_from_right_end : forall t p k x,
+  nthQ t (k + p + 1) <= x -> strictly_increasing t = true -> (k + p + 1 < length t)%nat -> bs_eval t p k x = 0.
+Proof. intros t p. exact (bs_eval_right_end t p). Qed.
+Theorem C10_every_point_lies_in_a_knot_interval : forall t x,
+  strictly_increasing t = true -> nthQ t 0 <= x -> x < nthQ t (length t - 1) -> exists j, in_piece t j x.
+Proof. exact exists_piece. Qed.
+Print Assumptions C10_bspline_recursion_is_piecewise_polynomial.
+Print Assumptions C10_bspline_derivative_is_formal_derivative.
+Print Assumptions C10_bspline_second_derivative_is_formal_second_derivative.
+
+(* ---- ALL basis classes (LagrangeBasis, ...Restricted, ...RestrictedModified with the repaired derivative methods, BSpline,
+        HierarchicalNotAKnotBSpline, ...Modified): value / get_first_derivative / get_second_derivative evaluate the polynomial
+        bpiece bf j and its formal derivatives (piece_hyp: x in knot interval j / inside the support; index bounds of the
+        BSpline constructor); the decidable condition basis_wf implies the index part (checked per explored grid) *)
+Theorem C10_basis_is_piecewise_polynomial : forall bf j x,
+  piece_hyp bf j x ->
+  beval bf x = peval (bpiece bf j) x /\ bd1 bf x = peval (pderiv (bpiece bf j)) x
+  /\ bd2 bf x = peval (pderiv (pderiv (bpiece bf j))) x.
+Proof. exact basis_is_piecewise_polynomial. Qed.
+Theorem C10_wellformed_bspline_is_piecewise_polynomial : forall p knots k x,
+  basis_wf (BBsp p knots k) = true -> nthQ knots 0 <= x -> x < nthQ knots (length knots - 1) ->
+  exists j, beval (BBsp p knots k) x = peval (bs_piece knots p k j) x
+         /\ bd1 (BBsp p knots k) x = peval (pderiv (bs_piece knots p k j)) x
+         /\ bd2 (BBsp p knots k) x = peval (pderiv (pderiv (bs_piece knots p k j))) x.
+Proof. exact wf_bspline_piecewise. Qed.
+Theorem C10_restricted_modified_vanishes_outside_support : forall p knots idx a b level x,
+  rl_in_support knots idx x = false ->
+  rlm_eval p knots idx a b level x = 0 /\ rlm_d1 p knots idx a b level x = 0 /\ rlm_d2 p knots idx a b level x = 0.
+Proof. exact rlm_outside. Qed.
+Print Assumptions C10_basis_is_piecewise_polynomial.
+
+(* ---- polynomial reproduction: the Lagrange basis on ANY n pairwise distinct knots reproduces EVERY polynomial with
+        n coefficients (degree <= n-1) at EVERY point *)
+Theorem C10_lagrange_reproduces_polynomials : forall knots P,
+  NoDup knots -> (length P <= length knots)%nat ->
+  forall x, lagrange_interpolant knots (peval P) x = peval P x.
+Proof. exact lagrange_reproduces_polynomials. Qed.
+Theorem C10_lagrange_reproduces_monomials : forall knots e,
+  NoDup knots -> (e < length knots)%nat -> forall x, lagrange_interpolant knots (fun y => y ^ e) x = x ^ e.
+Proof. exact lagrange_reproduces_monomials. Qed.
+Theorem C10_polynomial_with_n_roots_vanishes : forall rs, NoDup rs -> forall P, (length P <= length rs)%nat ->
+  (forall r, In r rs -> peval P r = 0) -> forall x, peval P x = 0.
+Proof. exact poly_roots_zero. Qed.
+(* ---- hierarchise-then-interpolate is a PROJECTION onto the span of the tensor-product basis, any number of dimensions:
+        a function that is a combination of the basis functions (any coefficient vector c) is reproduced at EVERY
+        evaluation point, and its surpluses are c.  (Which polynomials lie in the span of a hierarchical basis is a
+        property of the knot selection: the stated degree min(p, points-1) is NOT reached in general - known finding.) *)
+Theorem C10_span_is_reproduced : forall ss c sur,
+  Forall sys_sound ss -> Forall sys_inj ss -> length c = prodN (map s_n ss) ->
+  hier_nd ss (map (fun x => interp_nd ss x c) (grid_points ss)) = Some sur ->
+  sur = c /\ forall x, interp_nd ss x sur = interp_nd ss x c.
+Proof. exact span_is_reproduced. Qed.
+Theorem C10_lagrange_span_is_reproduced : forall ss c,
+  Forall sys_sound ss -> Forall sys_inj ss ->
+  Forall (fun s => s_ord s <> None /\ (length (s_basis s) <> 1)%nat) ss ->
+  length c = prodN (map s_n ss) ->
+  exists sur, hier_nd ss (map (fun x => interp_nd ss x c) (grid_points ss)) = Some sur
+              /\ forall x, interp_nd ss x sur = interp_nd ss x c.
+Proof. exact lagrange_span_is_reproduced. Qed.
+Print Assumptions C10_lagrange_reproduces_polynomials.
+Print Assumptions C10_span_is_reproduced.
+
+(* ---- the CODE-SHAPED forms equal the tensor recursions, for every number of dimensions and every shape.
+        interp_flat: interpolate() (enumerate(get_cross_product_range(numPoints)), product of evaluations[d][index[d]]);
+        hier_flat: HierarchizationLSG (offsets, pole_coordinates = i*offsets[d] + <point_index, offsets>, gather / solve /
+        scatter on the flat array, dimension after dimension) *)
+Theorem C10_interp_flat_eq_interp_nd : forall ss xs sur,
+  length xs = length ss -> interp_flat ss xs sur = interp_nd ss xs sur.
+Proof. exact interp_flat_eq_interp_nd. Qed.
+Theorem C10_hier_flat_eq_hier_nd : forall ss v,
+  Forall (fun s => s_n s <> O /\ (sys_single s \/ sys_colwise s)) ss ->
+  length v = prodN (map s_n ss) ->
+  hier_flat ss v = hier_nd ss v.
+Proof. exact hier_flat_eq_hier_nd. Qed.
+(* the column-wise hypothesis holds for every forward-substitution system; for checked-Gauss systems (B-spline / modified)
+   it is a hypothesis, cross-checked by evaluation (hier_flat vs hier_nd through the entry point) on every small grid *)
+Theorem C10_forward_substitution_systems_act_columnwise : forall s o,
+  s_ord s = Some o -> sys_sound s -> sys_single s \/ sys_colwise s.
+Proof. exact fsub_system_colwise. Qed.
+Theorem C10_hier_flat_eq_hier_nd_lagrange : forall ss v,
+  Forall (fun s => s_n s <> O /\ s_ord s <> None /\ sys_sound s) ss ->
+  length v = prodN (map s_n ss) ->
+  hier_flat ss v = hier_nd ss v.
+Proof. exact hier_flat_eq_hier_nd_lagrange. Qed.
+(* the offsets / pole coordinates stay inside the array: pole base + pole offset < number of points, every dimension *)
+Theorem C10_pole_coordinates_in_range : forall r d b o,
+  (d < length r)%nat -> In b (base_of r d) -> In o (offs_list r d) -> (b + o < prodN r)%nat.
+Proof. exact pole_bounds. Qed.
+Theorem C10_pole_offsets_enumerate_the_slice : forall n r, offs_list (n :: r) 0 = seq 0 (prodN r).
+Proof. exact offs_list_0. Qed.
+Print Assumptions C10_interp_flat_eq_interp_nd.
+Print Assumptions C10_hier_flat_eq_hier_nd.
+Print Assumptions C10_hier_flat_eq_hier_nd_lagrange.
+
+(* ------------------------------------------------------------------ non-vacuity (round 2) *)
+(* a quadratic B-spline on a non-uniform knot vector: x = 3/2 lies in interval 1, value 13/20, slope 1/5, second derivative -6/5, and the
+   recursion equals the polynomial piece; a well-formed object *)
+Example C10_bspline_piece_nonvacuous :
+  let t := [qd 0 1; qd 1 1; qd 5 2; qd 3 1; qd 9 2] in
+  in_piece t 1 (qd 3 2) /\ basis_wf (BBsp 2 t 0) = true /\
+  bs_eval t 2 0 (qd 3 2) = peval (bs_piece t 2 0 1) (qd 3 2) /\ bs_eval t 2 0 (qd 3 2) <> 0 /\
+  bs_d1 t 2 0 (qd 3 2) = peval (pderiv (bs_piece t 2 0 1)) (qd 3 2) /\ bs_d1 t 2 0 (qd 3 2) <> 0 /\
+  bs_d2 t 2 0 (qd 3 2) <> 0.
+Proof.
+  cbv zeta. split.
+  - split; [vm_compute; reflexivity|]. split; [simpl; lia|]. split; [vm_compute; discriminate | vm_compute; reflexivity].
+  - split; [vm_compute; reflexivity|]. split; [apply Qc_is_canon; vm_compute; reflexivity|].
+    split; [vm_compute; discriminate|]. split; [apply Qc_is_canon; vm_compute; reflexivity|].
+    split; vm_compute; discriminate.
+Qed.
+
+(* a cubic through four non-uniform knots is reproduced away from the knots *)
+Example C10_polynomial_reproduction_nonvacuous :
+  let knots := [qd (-3) 1; qd 1 4; qd 3 2; qd 6 1] in let P := [qd 1 1; qd (-2) 1; qd 0 1; qd 3 1] in
+  NoDup knots /\ (length P <= length knots)%nat /\
+  lagrange_interpolant knots (peval P) (qd 7 3) = peval P (qd 7 3) /\ peval P (qd 7 3) <> 0.
+Proof.
+  cbv zeta. split; [repeat constructor; simpl; intuition discriminate|]. split; [simpl; lia|].
+  split; [apply Qc_is_canon; vm_compute; reflexivity | vm_compute; discriminate].
+Qed.
+
+(* the 2-D adaptive Lagrange grid of C10_lagrange_grid_nonvacuous: the flat pole sweep returns the same non-trivial surpluses *)
+Example C10_hier_flat_nonvacuous :
+  let px := [qd 0 1; qd 1 4; qd 1 2; qd 1 1] in let lx := [0; 2; 1; 0]%nat in
+  let py := [qd 0 1; qd 1 2; qd 3 4; qd 7 8; qd 1 1] in let ly := [0; 1; 2; 3; 0]%nat in
+  exists sx sy,
+    lagrange_system 3 true false 0 1 px lx = Some sx /\ lagrange_system 3 true false 0 1 py ly = Some sy /\
+    let ss := [fst (choose_solver (sx, lx, true)); fst (choose_solver (sy, ly, true))] in
+    let v := map (fun k => qd (Z.of_nat (k * k) - 7) 4) (seq 0 20) in
+    exists sur, hier_flat ss v = Some sur /\ hier_nd ss v = Some sur /\ sur <> v
+      /\ interp_flat ss [qd 1 3; qd 2 3] sur = interp_nd ss [qd 1 3; qd 2 3] sur.
+Proof.
+  cbv zeta. eexists. eexists. split; [vm_compute; reflexivity|]. split; [vm_compute; reflexivity|].
+  eexists. split; [vm_compute; reflexivity|]. split; [vm_compute; reflexivity|].
+  split; [vm_compute; discriminate | apply Qc_is_canon; vm_compute; reflexivity].
+Qed.
+
+(* every remaining property theorem: closed under the global context *)
+Print Assumptions C10_lagrange_eval_is_polynomial.
+Print Assumptions C10_pderiv_is_coefficientwise_derivative.
+Print Assumptions C10_restricted_one_at_own_knot.
+Print Assumptions C10_forward_substitution_solves.
+Print Assumptions C10_solver_choice_is_sound.
+Print Assumptions C10_hierarchize_then_interpolate_id_vector_valued.
+Print Assumptions C10_lagrange_hierarchisation_total.
+Print Assumptions C10_accepted_lagrange_system_injective.
+Print Assumptions C10_certified_system_injective.
+Print Assumptions C10_interpolation_injective.
+Print Assumptions C10_system_residual_checker_sound.
+Print Assumptions C10_bspline_piece_vanishes_outside_support.
+Print Assumptions C10_bspline_vanishes_from_right_end.
+Print Assumptions C10_every_point_lies_in_a_knot_interval.
+Print Assumptions C10_wellformed_bspline_is_piecewise_polynomial.
+Print Assumptions C10_restricted_modified_vanishes_outside_support.
+Print Assumptions C10_lagrange_reproduces_monomials.
+Print Assumptions C10_polynomial_with_n_roots_vanishes.
+Print Assumptions C10_lagrange_span_is_reproduced.
+Print Assumptions C10_forward_substitution_systems_act_columnwise.
+Print Assumptions C10_pole_coordinates_in_range.
+Print Assumptions C10_pole_offsets_enumerate_the_slice.
